@@ -218,6 +218,12 @@ func (w *walker) step() {
 				k = open[r.Intn(len(open))]
 			}
 			add(12, sim.Action{Op: "begin", C: "trial", Key: k, DbErr: r.Intn(30) == 0})
+			// an early-stopped trial whose objective value is still missing is looked at again and again (its job may finish meanwhile)
+			for _, t := range p.Trials {
+				if trialES(t) && !(t.Obs.Has && t.Obs.Val != nil) {
+					add(5, sim.Action{Op: "begin", C: "trial", Key: t.Name})
+				}
+			}
 		}
 	}
 	inDB := map[int]bool{}
@@ -250,7 +256,11 @@ func (w *walker) step() {
 			add(wt, sim.Action{Op: "jobdone", Key: j.Name, Ok: r.Intn(5) > 0})
 		}
 		if !inDB[j.Name] {
-			add(4, sim.Action{Op: "metrics", Key: j.Name, V: w.val(isES(trialByName[j.Name]))})
+			v := w.val(isES(trialByName[j.Name]))
+			if s.Cfg.ES && !isES(trialByName[j.Name]) && r.Intn(3) == 0 {
+				v = nil // with early stopping configured the first report often comes before any objective value
+			}
+			add(4, sim.Action{Op: "metrics", Key: j.Name, V: v})
 		}
 	}
 	// the objective value arrives after a first report without it (also when the run object is already gone)
@@ -437,9 +447,16 @@ func (w *walker) drain() *int {
 		for _, d := range p.Db {
 			dbNil[d.Name] = d.Val == nil
 		}
+		// the objective value of an early-stopped trial whose log has none yet arrives now, or (every other round) only after
+		// the controllers have looked once more: the job may finish first
+		var lateObjective []int
 		for _, t := range p.Trials {
 			if dbNil[t.Name] && trialES(t) {
-				w.do(sim.Action{Op: "metrics", Key: t.Name, V: p64(int64(w.r.Intn(17)))})
+				if w.r.Intn(2) == 0 {
+					lateObjective = append(lateObjective, t.Name)
+				} else {
+					w.do(sim.Action{Op: "metrics", Key: t.Name, V: p64(int64(w.r.Intn(17)))})
+				}
 				envActed = true
 			}
 		}
@@ -475,6 +492,9 @@ func (w *walker) drain() *int {
 		if s.CachedSuggestion() != nil {
 			w.do(sim.Action{Op: "begin", C: "sug", Resp: w.resp(0)})
 			w.finishFaulty("sug", faulty)
+		}
+		for _, n := range lateObjective {
+			w.do(sim.Action{Op: "metrics", Key: n, V: p64(int64(w.r.Intn(17)))})
 		}
 		after := s.Project()
 		if !faulty && !envActed && after.Writes == before.Writes && sameStore(before, after) {
@@ -665,6 +685,16 @@ func (world) Run(input any) kit.Case {
 		if len(p.Trials) > maxTrials {
 			maxTrials = len(p.Trials)
 		}
+		for _, t := range p.Trials {
+			es, mu := false, false
+			for _, c := range t.Conds {
+				es = es || (c.T == 6 && c.S == "True")
+				mu = mu || (c.T == 5 && c.S == "True")
+			}
+			if es && mu {
+				stats["trial-early-stopped-and-metrics-unavailable"] = 1
+			}
+		}
 		if p.Exp != nil {
 			for _, c := range p.Exp.Conds {
 				if (c.T == 3 || c.T == 4) && c.S == "True" {
@@ -741,7 +771,7 @@ func (world) Run(input any) kit.Case {
 		c.Tags = append(c.Tags, "already-exists")
 	}
 	for _, k := range []string{"fault", "abort", "earlystop", "raisemax", "fault-after-verdict:exp", "fault-after-verdict:sug", "fault-after-verdict:trial",
-		"experiment-reconcile-on-stale-running-cache-after-verdict", "experiment-reconcile-after-verdict-with-unfinished-trials"} {
+		"experiment-reconcile-on-stale-running-cache-after-verdict", "experiment-reconcile-after-verdict-with-unfinished-trials", "trial-early-stopped-and-metrics-unavailable"} {
 		if stats[k] > 0 {
 			c.Tags = append(c.Tags, k)
 		}
